@@ -136,6 +136,14 @@ func runC13(c *vh.Case, spec c13Spec) {
 			case "R":
 				return fmt.Errorf("%w: verif-rejected", jsonrpc2.ErrRejected)
 			case "S":
+			case "C":
+				cmu.Lock()
+				rejectCancel = true
+				cmu.Unlock()
+			case "W":
+				// the transport cannot take the message: Write returns when the ping's own deadline expires
+				<-wctx.Done()
+				return wctx.Err()
 			}
 			return nil
 		}
